@@ -170,7 +170,8 @@ def execute(scn, codegen='json', extra_parser=None, around=None):
     brs = []
     for i, b in enumerate(scn['borrowers']):
         rd = doubles.BorrowReaderD(tr, 'b%d' % i, dict(
-            (k, (('error', 'reader') if v == 'error' else v)) for k, v in b['table'].items()))
+            (k, (('error', 'reader') if v == 'error' else v)) for k, v in b['table'].items()),
+            alias=b.get('alias'))
         cls = PyFileBorrower if b.get('kind') == 'py' else AnyFileBorrower
         brs.append(cls(rd, genTexts=b['genTexts']))
     comp.addBorrowers(*brs)
